@@ -16,8 +16,8 @@ pub static DEF: PropDef = PropDef {
     level: "exploration",
     rule: "decoder side: arr_to_u64 / arr_to_i64 / arr_to_f64 on all slices of length 0..2 (exhaustive), boundary patterns and random slices of length 3..9 compared with the reference big-endian / sign-extending / IEEE-754 decoders; writer side: single-element documents (UnsignedInt, Integer, Float root elements) written by the real TagWriter for lattice + random 64-bit values, header decoded with the reference decoder, payload width must be the minimal of 1/2/4/8 (8 for floats) and decode back bit-for-bit through the repo's decoders. Distinct-nontrivial = (function, slice length, sign/top-bit class) or (type, payload width, value class).",
     assumptions: &["reference decoders in refcodec.rs are correct", "an empty slice means 0 for both integer decoders, as the property states"],
-    cases_quick: 32,
-    cases_thorough: 512,
+    cases_quick: 64,
+    cases_thorough: 2_048,
     floors: &[("slices_decoded", 20_000), ("values_written", 5_000), ("distinct_nontrivial", 30)],
     exhaustive_note: Some("all byte slices of length 0..2 for the three decoders"),
     run,
